@@ -371,10 +371,12 @@ sqfs_s32 sqfs_data_reader_read(sqfs_data_reader_t *data,
 		if (err)
 			return err;
 
-		if ((frag_off + offset) >= data->frag_blk_size)
+		if (frag_off >= data->frag_blk_size ||
+		    offset >= (data->frag_blk_size - frag_off)) {
 			return SQFS_ERROR_OUT_OF_BOUNDS;
+		}
 
-		if ((data->frag_blk_size - (frag_off + offset)) < size)
+		if ((data->frag_blk_size - frag_off - offset) < size)
 			return SQFS_ERROR_OUT_OF_BOUNDS;
 
 		ptr = (char *)data->frag_block + frag_off + offset;
